@@ -17,7 +17,7 @@ MAX_STEPS = int(os.environ.get('MIRSYM_MAX_STEPS', '400000'))
 
 STD_ENUMS = {
     'Option': ['None', 'Some'], 'Result': ['Ok', 'Err'], 'ControlFlow': ['Continue', 'Break'],
-    'Entry': ['Occupied', 'Vacant'], 'SeekFrom': ['Start', 'End', 'Current'], 'Poll': ['Ready', 'Pending'],
+    'Entry': ['Occupied', 'Vacant'], 'BTreeEntry': ['Vacant', 'Occupied'], 'SeekFrom': ['Start', 'End', 'Current'], 'Poll': ['Ready', 'Pending'],
     'Cow': ['Borrowed', 'Owned'], 'Ordering': ['Less', 'Equal', 'Greater'], 'Bound': ['Included', 'Excluded', 'Unbounded'],
     # std::io::ErrorKind, order of the installed nightly's core/src/io/error.rs
     'ErrorKind': 'NotFound PermissionDenied ConnectionRefused ConnectionReset HostUnreachable NetworkUnreachable '
